@@ -16,16 +16,16 @@ theorem idxOf_lt {l : List Bytes} {k : Bytes} (hk : k ∈ l) : l.idxOf k < l.len
   exact (List.getElem?_eq_some_iff.mp this).1
 
 /-- **One diff node, among neighbours.** -/
-theorem applyStep_op_nb {S : Schema} {s : Nat} (C : LLCtx S s) (fx : Fixes) (recur : Recur) {P Q X : List DNode}
+theorem applyStep_op_nb {S : Schema} {s : Nat} (C : LLCtx S s) (fx : Fixes) (recur : Recur) (hp : Bool) (inh : Option Op) {P Q X : List DNode}
     (hP : ∀ x ∈ P, x.sid < s) (hQ : ∀ x ∈ Q, s < x.sid)
     {l l' : List Bytes} (h : DataLL s X l) {d : DNode} {op : UOG.UOp Bytes} (hop : IsOpNode s d op)
     (hap : UOG.applyOp (some l) op = some l') :
-    ∃ X', applyStep S fx recur (P ++ X ++ Q) false none d = .ok (P ++ X' ++ Q) ∧ DataLL s X' l' := by
+    ∃ X', applyStep S fx recur (P ++ X ++ Q) hp inh d = .ok (P ++ X' ++ Q) ∧ DataLL s X' l' := by
   have hPne : ∀ x ∈ P, x.sid ≠ s := fun x hx => Nat.ne_of_lt (hP x hx)
   have hQne : ∀ x ∈ Q, x.sid ≠ s := fun x hx => Nat.ne_of_gt (hQ x hx)
   cases hop with
   | del k ov =>
-    have he : effOp (delNode s ov k) none = some .delete := by rfl
+    have he : effOp (delNode s ov k) inh = some .delete := by rfl
     simp only [UOG.applyOp, Option.bind_some] at hap
     by_cases hk : k ∈ l
     · simp only [hk, if_true, Option.some.injEq] at hap
@@ -43,14 +43,14 @@ theorem applyStep_op_nb {S : Schema} {s : Nat} (C : LLCtx S s) (fx : Fixes) (rec
       simp [applyDelete, delNode, hfm, her]
     · simp [hk] at hap
   | create k a ha =>
-    have he : effOp (createNode s (a.getD []) k) none = some .create := by rfl
+    have he : effOp (createNode s (a.getD []) k) inh = some .create := by rfl
     simp only [UOG.applyOp, Option.bind_some] at hap
     by_cases hk : k ∈ l
     · simp [hk] at hap
     · simp only [hk, if_false] at hap
       have hn : ∃ nw, dupSingle S (createNode s (a.getD []) k) = .term s { new := nw } [] (dupSingle S (createNode s (a.getD []) k)).val :=
         ⟨true, rfl⟩
-      obtain ⟨X', e1, e2⟩ := insertUO_new C h (dupSingle S (createNode s (a.getD []) k)) hn a hap
+      obtain ⟨X', e1, e2⟩ := insertUO_new C hp h (dupSingle S (createNode s (a.getD []) k)) hn a hap
       have hc : X ≠ [] ∨ a = none := by
         cases X with
         | nil =>
@@ -61,7 +61,7 @@ theorem applyStep_op_nb {S : Schema} {s : Nat} (C : LLCtx S s) (fx : Fixes) (rec
           | none => rfl
           | some z => simp [UOG.insertAfter, UOG.insertAfterKey] at hap
         | cons x xs => left; simp
-      have e1' := insertUO_mid S P X Q (dupSingle S (createNode s (a.getD []) k)) none a X' (by exact C.nd)
+      have e1' := insertUO_mid S hp P X Q (dupSingle S (createNode s (a.getD []) k)) none a X' (by exact C.nd)
         (fun x hx => h.sid x hx) hP hQ (by intro i hi; simp at hi) hc e1
       refine ⟨X', ?_, e2⟩
       have hm : getMeta (createNode s (a.getD []) k) "value" = some (a.getD []) := by rfl
@@ -72,7 +72,7 @@ theorem applyStep_op_nb {S : Schema} {s : Nat} (C : LLCtx S s) (fx : Fixes) (rec
         applyKids_term S fx recur _ (rfl : (createNode s (a.getD []) k).kids = []), bind, Except.bind]
       simp [e1', hset, dupSingle, createNode, DNode.setKids] at *
   | move k ov a ha =>
-    have he : effOp (moveNode s ov (a.getD []) k) none = some .replace := by rfl
+    have he : effOp (moveNode s ov (a.getD []) k) inh = some .replace := by rfl
     simp only [UOG.applyOp, Option.bind_some] at hap
     by_cases hc : k ∈ l ∧ a ≠ some k ∧ ¬ (a = none ∧ l.head? = some k)
     · rw [if_pos hc] at hap
@@ -82,10 +82,10 @@ theorem applyStep_op_nb {S : Schema} {s : Nat} (C : LLCtx S s) (fx : Fixes) (rec
       simp only [moveNode, DNode.val, hc.1, if_true] at hf
       have hfm := findForApply_mid S P X Q (moveNode s ov (a.getD []) k) hPne hQne
       simp only [moveNode, hf, Option.map_some] at hfm
-      obtain ⟨X', e1, e2⟩ := insertUO_move C h (.term s { new := nw } [] k) ⟨nw, rfl⟩ hc.1 a hc.2.1 hc.2.2 hap
+      obtain ⟨X', e1, e2⟩ := insertUO_move C hp h (.term s { new := nw } [] k) ⟨nw, rfl⟩ hc.1 a hc.2.1 hc.2.2 hap
       simp only [DNode.val] at e1
       have hXne : X ≠ [] := by intro e; subst e; simp at hlt
-      have e1' := insertUO_mid S P X Q (.term s { new := nw } [] k) (some (l.idxOf k)) a X' (by exact C.nd)
+      have e1' := insertUO_mid S hp P X Q (.term s { new := nw } [] k) (some (l.idxOf k)) a X' (by exact C.nd)
         (fun x hx => h.sid x hx) hP hQ (by intro i hi; simp at hi; omega) (Or.inl hXne) e1
       simp only [Option.map_some] at e1'
       have hg' : (P ++ X ++ Q)[l.idxOf k + P.length]? = some (.term s { new := nw } [] k) := by
@@ -100,11 +100,11 @@ theorem applyStep_op_nb {S : Schema} {s : Nat} (C : LLCtx S s) (fx : Fixes) (rec
     · rw [if_neg hc] at hap; simp at hap
 
 /-- **The whole diff, among neighbours.** -/
-theorem apply_ops_nb {S : Schema} {s : Nat} (C : LLCtx S s) (fx : Fixes) (fuel : Nat) {P Q : List DNode}
+theorem apply_ops_nb {S : Schema} {s : Nat} (C : LLCtx S s) (fx : Fixes) (fuel : Nat) (hp : Bool) (inh : Option Op) {P Q : List DNode}
     (hP : ∀ x ∈ P, x.sid < s) (hQ : ∀ x ∈ Q, s < x.sid) {nodes : List DNode}
     {ops : List (UOG.UOp Bytes)} (hops : OpNodes s nodes ops) :
     ∀ (X : List DNode) (l l' : List Bytes), DataLL s X l → UOG.applyU l ops = some l' →
-      ∃ X', nodes.foldlM (fun sibs d => applyNode S fx (fuel + 1) sibs false none d) (P ++ X ++ Q) = .ok (P ++ X' ++ Q) ∧
+      ∃ X', nodes.foldlM (fun sibs d => applyNode S fx (fuel + 1) sibs hp inh d) (P ++ X ++ Q) = .ok (P ++ X' ++ Q) ∧
         DataLL s X' l' := by
   induction hops with
   | nil =>
@@ -119,11 +119,11 @@ theorem apply_ops_nb {S : Schema} {s : Nat} (C : LLCtx S s) (fx : Fixes) (fuel :
     | none => simp [hl1] at hap
     | some l1 =>
       simp only [hl1, Option.bind_some] at hap
-      obtain ⟨X1, e1, d1⟩ := applyStep_op_nb C fx (applyNode S fx fuel) hP hQ h h1 hl1
+      obtain ⟨X1, e1, d1⟩ := applyStep_op_nb C fx (applyNode S fx fuel) hp inh hP hQ h h1 hl1
       obtain ⟨X', e2, d2⟩ := ih X1 l1 l' d1 hap
       refine ⟨X', ?_, d2⟩
       rw [List.foldlM_cons]
-      show (applyStep S fx (applyNode S fx fuel) (P ++ X ++ Q) false none n >>= _) = _
+      show (applyStep S fx (applyNode S fx fuel) (P ++ X ++ Q) hp inh n >>= _) = _
       rw [e1]
       exact e2
 
@@ -137,7 +137,7 @@ theorem apply_diff_nb {S : Schema} {s : Nat} (C : LLCtx S s) {P Q : List DNode} 
     ∃ B', apply S (nbForest s P Q va) (diffFromPtr S true (nbForest s P Q va) (nbForest s P Q vb) fx) fx = .ok B' ∧
       normL S B' = normL S (nbForest s P Q vb) := by
   obtain ⟨nodes, hd, hops⟩ := diffFull_nb C N fx va vb nda ndb hne
-  obtain ⟨X', h1, h2⟩ := apply_ops_nb C fx (heightL nodes) N.ltP N.gtQ hops (llForest s va) va vb (dataLL_llForest s va)
+  obtain ⟨X', h1, h2⟩ := apply_ops_nb C fx (heightL nodes) false none N.ltP N.gtQ hops (llForest s va) va vb (dataLL_llForest s va)
     (UOG.userord_apply_diff va vb nda ndb)
   refine ⟨P ++ X' ++ Q, ?_, ?_⟩
   · simp only [diffFromPtr, hd, List.drop_zero]; exact h1
